@@ -548,10 +548,9 @@ Proof. reflexivity. Qed.
 Lemma osum_cons : forall k v m, osum ((k, v) :: m) = (S (fsize v) + osum m)%nat.
 Proof. reflexivity. Qed.
 
-(* The one fact about numbers that is assumed below (see NumProofs.number_roundtrip_partial for the part that is
-   proved and for what is missing): a double that was read from some token, printed by NumberToJSON and read
-   again, is the same double (-0 printed as "0" reads as +0).  It is checked by evaluation on every number of
-   the differential run (SV.Corr.Json.n_rt_mismatches). *)
+(* The one fact about numbers that the document-level proofs use (proved as [num_roundtrip] in section 9 from
+   NumProofs.number_roundtrip and parse_number_bound): a double that was read from some token, printed by
+   NumberToJSON and read again, is the same double (-0 printed as "0" reads as +0). *)
 Definition num_roundtrip_statement : Prop :=
   forall tok b s, parse_number tok = Some b -> number_to_json b = Some s -> parse_number s = Some (nnorm b).
 
@@ -1238,26 +1237,25 @@ Proof. vm_compute. reflexivity. Qed.
 (* ================================================================================================ *)
 (** * 9. Final statements *)
 
-(* FULL STATEMENT wanted:  forall b c, transform b = Some c -> transform c = Some c.
-   Proved under [num_roundtrip_statement] (numbers read, printed and read again are unchanged), which is the
-   only missing piece; everything about structure, strings, escapes, member sorting and fuel is proved. *)
-Theorem transform_fixed_point_partial :
-  num_roundtrip_statement -> forall b c, transform b = Some c -> transform c = Some c.
-Proof. intro H. exact (transform_fixed_point_cond H number_to_json_chars). Qed.
+(* numbers read from a token, printed and read again are unchanged (-0 becomes +0) *)
+Theorem num_roundtrip : num_roundtrip_statement.
+Proof.
+  intros tok b s Hp Hs. apply parse_number_bound in Hp. rewrite (number_roundtrip b s Hp Hs). reflexivity.
+Qed.
 
-(* FULL STATEMENT wanted: the same without the first hypothesis. *)
-Theorem transform_same_value_partial :
-  num_roundtrip_statement ->
-  forall b c v, transform b = Some c -> parse_value b = Some v ->
+(* 1. the canonical form is a fixed point of canonicalization *)
+Theorem transform_fixed_point : forall b c, transform b = Some c -> transform c = Some c.
+Proof. exact (transform_fixed_point_cond num_roundtrip number_to_json_chars). Qed.
+
+(* 2. the canonical form parses to the same I-JSON value *)
+Theorem transform_same_value : forall b c v, transform b = Some c -> parse_value b = Some v ->
   exists v', parse_value c = Some v' /\ json_equiv_jcs v v'.
-Proof. intro H. exact (transform_same_value_cond H number_to_json_chars). Qed.
+Proof. exact (transform_same_value_cond num_roundtrip number_to_json_chars). Qed.
 
-(* FULL STATEMENT wanted: the same without the first hypothesis. *)
-Theorem print_canonical_injective_partial :
-  num_roundtrip_statement ->
-  forall v1 v2, wf v1 -> wf v2 -> top_shape v1 -> top_shape v2 ->
+(* 5. uniqueness of the serialization on normal forms *)
+Theorem print_canonical_injective : forall v1 v2, wf v1 -> wf v2 -> top_shape v1 -> top_shape v2 ->
   print_canonical v1 = print_canonical v2 -> cnorm v1 = cnorm v2.
-Proof. intro H. exact (print_canonical_injective_cond H number_to_json_chars). Qed.
+Proof. exact (print_canonical_injective_cond num_roundtrip number_to_json_chars). Qed.
 
 (* 4. output shape: the output is the serialization of a value in normal form: member names strictly increasing
    in UTF-16 code unit order in every object, no negative zero; by definition of [print_canonical] it contains
@@ -1287,14 +1285,13 @@ Proof.
       induction H as [|[k y] r Hy Hr IHr]; [exact I|]. split; [exact Hy|exact IHr].
 Qed.
 
-Theorem transform_output_shape_partial :
-  num_roundtrip_statement ->
+Theorem transform_output_shape :
   forall b c, transform b = Some c ->
   exists v, parse_value c = Some v /\ normal_form v /\ c = print_canonical v.
 Proof.
-  intros Hn b c H. unfold transform in H. destruct (parse_value b) as [v|] eqn:E; [|discriminate].
+  intros b c H. unfold transform in H. destruct (parse_value b) as [v|] eqn:E; [|discriminate].
   inversion H; subst. apply parse_value_wf in E. destruct E as [Hw Hs].
-  exists (cnorm v). split; [apply (rt_top Hn number_to_json_chars); assumption|].
+  exists (cnorm v). split; [apply (rt_top num_roundtrip number_to_json_chars); assumption|].
   split; [now apply normal_form_cnorm|]. symmetry. now apply print_cnorm.
 Qed.
 
@@ -1477,4 +1474,140 @@ Proof.
   intros b m r k Hr. induction k as [|k IH]; [now rewrite Nat.add_0_r|].
   rewrite Nat.add_succ_r, fuel_enough; [exact IH|].
   unfold need, parse_fuel. destruct m; lia.
+Qed.
+
+(* ================================================================================================ *)
+(** * 11. Trailing content: whatever is appended to an accepted document is only looked at by the final
+      white-space check *)
+
+Lemma scan_frame : forall s c r g, scan s = Some (c, r) -> scan (s ++ g) = Some (c, r ++ g).
+Proof.
+  induction s as [|d s IH]; intros c r g H; [discriminate|]. cbn [scan app] in *.
+  destruct (is_ws (bN d)); [now apply IH|].
+  destruct (0x7f <? bN d); [discriminate|]. now inversion H.
+Qed.
+
+Lemma scan_for_frame : forall x s r g, scan_for x s = Some r -> scan_for x (s ++ g) = Some (r ++ g).
+Proof.
+  intros x s r g H. unfold scan_for in *. destruct (scan s) as [[c r0]|] eqn:E; [|discriminate].
+  rewrite (scan_frame _ _ _ g E). destruct (bN c =? x); [|discriminate]. now inversion H.
+Qed.
+
+Lemma parse_string_frame : forall n s acc k r g,
+  (length s <= n)%nat -> parse_string s acc = Some (k, r) -> parse_string (s ++ g) acc = Some (k, r ++ g).
+Proof.
+  induction n as [|n IH]; intros s acc k r g Hl H.
+  - destruct s; [discriminate|cbn in Hl; lia].
+  - destruct s as [|c s']; [discriminate|]. cbn [app]. cbn [parse_string] in *.
+    destruct (bN c =? 0x22). { now inversion H. }
+    destruct (bN c <? 0x20); [discriminate|].
+    destruct (bN c =? 0x5c).
+    2: { apply IH; [cbn [length] in Hl; lia|exact H]. }
+    destruct s' as [|e r1]; [discriminate|]. cbn [app].
+    destruct (bN e =? 0x75).
+    + destruct r1 as [|h1 [|h2 [|h3 [|h4 r2]]]]; try discriminate. cbn [app].
+      destruct (hex4 h1 h2 h3 h4) as [u1|]; [|discriminate].
+      destruct (is_surrogate u1).
+      * destruct r2 as [|b0 [|u [|k1 [|k2 [|k3 [|k4 r3]]]]]]; try discriminate. cbn [app].
+        destruct ((bN b0 =? 0x5c) && (bN u =? 0x75)); [|discriminate].
+        destruct (hex4 k1 k2 k3 k4) as [u2|]; [|discriminate].
+        destruct (utf16_decode_pair u1 u2 =? rune_error); [discriminate|].
+        apply IH; [cbn [length] in Hl; lia|exact H].
+      * apply IH; [cbn [length] in Hl; lia|exact H].
+    + destruct (bN e =? 0x2f); [apply IH; [cbn [length] in Hl; lia|exact H]|].
+      destruct (unescape (bN e)); [apply IH; [cbn [length] in Hl; lia|exact H]|discriminate].
+Qed.
+
+Lemma token_loop_frame : forall s acc tok r g,
+  token_loop s acc = Some (tok, r) -> token_loop (s ++ g) acc = Some (tok, r ++ g).
+Proof.
+  induction s as [|d s IH]; intros acc tok r g H; rewrite token_loop_eq in H; [discriminate|].
+  rewrite token_loop_eq. destruct (scan (d :: s)) as [[c x]|] eqn:E; [|discriminate].
+  rewrite (scan_frame _ _ _ g E). destruct (is_term (bN c)). { now inversion H. }
+  cbn [app]. destruct (0x7f <? bN d); [discriminate|].
+  destruct (is_ws (bN d)). { now inversion H. }
+  now apply IH.
+Qed.
+
+Lemma parse_frame : forall f m s v r g, parse f m s = Some (v, r) -> parse f m (s ++ g) = Some (v, r ++ g).
+Proof.
+  induction f as [|f IH]; intros m s v r g H; [discriminate|]. destruct m as [|next acc|next acc].
+  - rewrite parse_elem_eq in *. destruct (scan s) as [[c r0]|] eqn:Es; [|discriminate].
+    rewrite (scan_frame _ _ _ g Es).
+    destruct (bN c =? 0x7b); [now apply IH|].
+    destruct (bN c =? 0x22).
+    { destruct (parse_string r0 []) as [[str r']|] eqn:Ep; [|discriminate].
+      rewrite (parse_string_frame _ _ _ _ _ g (le_n _) Ep). now inversion H. }
+    destruct (bN c =? 0x5b); [now apply IH|].
+    destruct (token_loop (c :: r0) []) as [[tok r']|] eqn:Et; [|discriminate].
+    change (c :: r0 ++ g) with ((c :: r0) ++ g). rewrite (token_loop_frame _ _ _ _ g Et).
+    destruct (simple_value tok); [|discriminate]. now inversion H.
+  - rewrite parse_arr_eq in *. destruct (scan s) as [[c r0]|] eqn:Es; [|discriminate].
+    rewrite (scan_frame _ _ _ g Es). destruct (bN c =? 0x5d). { now inversion H. }
+    destruct (if next then scan_for 0x2c s else Some s) as [s1|] eqn:E1; [|discriminate].
+    destruct next; [rewrite (scan_for_frame _ _ _ g E1)|injection E1 as E1s; rewrite E1s]; cbv beta iota;
+      (destruct (parse f MElem s1) as [[v0 s2]|] eqn:E2; [|discriminate];
+       rewrite (IH _ _ _ _ g E2); now apply IH).
+  - rewrite parse_obj_eq in *. destruct (scan s) as [[c r0]|] eqn:Es; [|discriminate].
+    rewrite (scan_frame _ _ _ g Es). destruct (bN c =? 0x7d). { now inversion H. }
+    destruct (if next then scan_for 0x2c s else Some s) as [s1|] eqn:E1; [|discriminate].
+    destruct next; [rewrite (scan_for_frame _ _ _ g E1)|injection E1 as E1s; rewrite E1s]; cbv beta iota;
+      (destruct (scan_for 0x22 s1) as [s2|] eqn:E2; [|discriminate];
+       rewrite (scan_for_frame _ _ _ g E2);
+       destruct (parse_string s2 []) as [[k s3]|] eqn:E3; [|discriminate];
+       rewrite (parse_string_frame _ _ _ _ _ g (le_n _) E3);
+       destruct (scan_for 0x3a s3) as [s4|] eqn:E4; [|discriminate];
+       rewrite (scan_for_frame _ _ _ g E4);
+       destruct (parse f MElem s4) as [[v0 s5]|] eqn:E5; [|discriminate];
+       rewrite (IH _ _ _ _ g E5); destruct (key_mem (utf16_key k) acc); [discriminate|]; now apply IH).
+Qed.
+
+Lemma parse_mono_k : forall k f m s x, parse f m s = Some x -> parse (f + k) m s = Some x.
+Proof.
+  induction k as [|k IH]; intros f m s x H; [now rewrite Nat.add_0_r|].
+  rewrite Nat.add_succ_r. apply parse_mono. now apply IH.
+Qed.
+
+(* 6f. trailing content: an accepted document followed by anything that is not pure white space is rejected *)
+Theorem trailing_content_rejected : forall b v g,
+  parse_value b = Some v -> all_ws g = false -> transform (b ++ g) = None.
+Proof.
+  intros b v g H Hg. unfold transform, parse_value in *.
+  destruct (scan b) as [[c r]|] eqn:Es; [|discriminate]. rewrite (scan_frame _ _ _ g Es).
+  assert (Hfuel : parse_fuel (b ++ g) = (parse_fuel b + 2 * length g)%nat).
+  { unfold parse_fuel. rewrite app_length. lia. }
+  rewrite Hfuel.
+  assert (Hws : forall rest, all_ws (rest ++ g) = false).
+  { intro rest. unfold all_ws in *. rewrite forallb_app, Hg. apply andb_false_r. }
+  destruct (bN c =? 0x5b).
+  - destruct (parse (parse_fuel b) (MArr false []) r) as [[v0 rest]|] eqn:E; [|discriminate].
+    apply (parse_mono_k (2 * length g)) in E. rewrite (parse_frame _ _ _ _ _ g E). now rewrite Hws.
+  - destruct (bN c =? 0x7b); [|reflexivity].
+    destruct (parse (parse_fuel b) (MObj false []) r) as [[v0 rest]|] eqn:E; [|discriminate].
+    apply (parse_mono_k (2 * length g)) in E. rewrite (parse_frame _ _ _ _ _ g E). now rewrite Hws.
+Qed.
+
+Corollary trailing_byte_rejected : forall b v c,
+  parse_value b = Some v -> is_ws (bN c) = false -> transform (b ++ [c]) = None.
+Proof.
+  intros b v c H Hc. eapply trailing_content_rejected; [exact H|]. unfold all_ws. cbn [forallb]. now rewrite Hc.
+Qed.
+
+(* the other direction: trailing white space is ignored *)
+Theorem trailing_ws_ignored : forall b v g,
+  parse_value b = Some v -> all_ws g = true -> parse_value (b ++ g) = Some v.
+Proof.
+  intros b v g H Hg. unfold parse_value in *.
+  destruct (scan b) as [[c r]|] eqn:Es; [|discriminate]. rewrite (scan_frame _ _ _ g Es).
+  assert (Hfuel : parse_fuel (b ++ g) = (parse_fuel b + 2 * length g)%nat).
+  { unfold parse_fuel. rewrite app_length. lia. }
+  rewrite Hfuel.
+  assert (Hws : forall rest, all_ws (rest ++ g) = all_ws rest).
+  { intro rest. unfold all_ws in *. rewrite forallb_app, Hg. apply andb_true_r. }
+  destruct (bN c =? 0x5b).
+  - destruct (parse (parse_fuel b) (MArr false []) r) as [[v0 rest]|] eqn:E; [|discriminate].
+    apply (parse_mono_k (2 * length g)) in E. rewrite (parse_frame _ _ _ _ _ g E). now rewrite Hws.
+  - destruct (bN c =? 0x7b); [|discriminate].
+    destruct (parse (parse_fuel b) (MObj false []) r) as [[v0 rest]|] eqn:E; [|discriminate].
+    apply (parse_mono_k (2 * length g)) in E. rewrite (parse_frame _ _ _ _ _ g E). now rewrite Hws.
 Qed.
